@@ -154,6 +154,7 @@ def check(ctx, rep):
             v = p.value
             called = isinstance(v, tuple) and v[0] == "call" and m and v[1][:2] == ("call", m[0].d["func"]) and not v[2] and not v[3]
             rep.ob("R-PLUMB", "%s = wrap(future).%s(fn=fn, error_fn=error_fn)()" % (fname, meth), ok and called, "found %s" % fmt(v), where_of(fi), trace_of(p))
+    decorator_rule(ctx, rep, "R-PLUMB", [prog.fn("futures.map:f_map"), prog.fn("futures.map:f_flat_map")])
     ps, it = ctx.paths(wrapf, None, depth=0)
     for p in ps:
         if p.status != "return":
@@ -165,6 +166,38 @@ def check(ctx, rep):
             ps2, _ = ctx.paths(sub, None, depth=0)
             okw = not sub.params and all(p2.status == "return" and q.term_name(p2.value) == wrapf.params[0] for p2 in ps2)
         rep.ob("R-PLUMB", "wrap(f) = EXECUTOR.flat_bind(lambda: f)", okw, "", where_of(wrapf))
+
+
+def decorator_rule(ctx, rep, rule, fns):
+    """the argument-checking decorators on the public f_* functions hand the caller's arguments on untouched: the
+    decorated function is called once with (*args, **kwargs) exactly as received, and what it returns is returned"""
+    import ast as _ast
+    prog = ctx.prog
+    seen = set()
+    for fi in fns:
+        for dec in getattr(fi.node, "decorator_list", []):
+            if not isinstance(dec, _ast.Name):
+                continue
+            dfi = None
+            for cand in prog.functions.values():
+                if cand.parent is None and cand.owner is None and cand.name == dec.id and len(cand.params) == 1 and cand.nested:
+                    dfi = cand
+            if dfi is None or dfi.key in seen:
+                continue
+            seen.add(dfi.key)
+            for sub in dfi.nested.values():
+                if not (sub.vararg and sub.kwarg):
+                    continue
+                ps, it = ctx.paths(sub, None, depth=0)
+                for p in ps:
+                    if p.status != "return":
+                        continue
+                    cs = [e for e in p.calls() if e.d["func"] in (("free", dfi.params[0]), ("param", dfi.params[0]))]
+                    ok = len(cs) == 1 and q.args_forwarded(cs[0], sub, skip=0)[0] and p.value == q.result_of(cs[0])
+                    touched = [e for e in p.calls() if q.call_name(e) in ("pop", "popitem", "clear", "update", "setdefault", "remove", "insert", "append") and q.recv(e) in (("param", sub.kwarg), ("param", sub.vararg), ("kw", (), ("param", sub.kwarg)))]
+                    touched += [e for e in p.evs("store") + p.evs("del") if isinstance(e.d.get("target"), tuple) and e.d["target"][0] == "sub" and e.d["target"][1] in (("param", sub.kwarg), ("kw", (), ("param", sub.kwarg)))]
+                    rep.ob(rule, "@%s passes the caller's arguments on unchanged" % dfi.name, ok and not touched, "the wrapper %s the decorated function with (*args, **kwargs) as received%s: an argument given by keyword (f_map(future=f, fn=g)) no longer reaches it" % ("does not call" if not ok else "calls", "" if not touched else " but changes them first (%s)" % ", ".join(sorted(set(q.call_name(e) or e.kind for e in touched)))), where_of(sub), trace_of(p))
+    rep.count("argument-checking decorators analysed", len(seen), 1)
 
 
 def _init_only(callee, ev, path):
